@@ -48,6 +48,47 @@ func logStageBlame(c *Ctx, relevant ...string) func(t LogCase, impl, model Sexp)
 	}
 }
 
+// c08PartitionFails states C08's partition clause on the implementation alone: the label set an entry
+// ends with is what the same query gives for its record evaluated on its own (the pipelines generated
+// for C08 have no state); in the full result every entry must sit in the stream carrying that label set,
+// and no label set may head two streams. True = the implementation's own answers contradict each other.
+func c08PartitionFails(t LogCase, impl Sexp) bool {
+	if impl.Head() != "ok" {
+		return false
+	}
+	allowed := map[string]map[string]bool{}
+	for _, rec := range t.Recs {
+		t1 := t
+		t1.Recs, t1.Limit = []LRec{rec}, -1
+		r1 := logImpl(t1, false)
+		if r1.Head() != "ok" {
+			return false
+		}
+		for _, st := range r1.Args() {
+			for _, e := range st.List[2:] {
+				if allowed[e.String()] == nil {
+					allowed[e.String()] = map[string]bool{}
+				}
+				allowed[e.String()][st.List[1].String()] = true
+			}
+		}
+	}
+	heads := map[string]bool{}
+	for _, st := range impl.Args() {
+		ls := st.List[1].String()
+		if heads[ls] {
+			return true
+		}
+		heads[ls] = true
+		for _, e := range st.List[2:] {
+			if !allowed[e.String()][ls] {
+				return true
+			}
+		}
+	}
+	return false
+}
+
 // streamLabelCount: total number of labels other than msg over all streams of a result.
 func resultStats(impl Sexp) (streams, maxPerStream, labels int) {
 	if impl.Head() != "ok" {
@@ -115,8 +156,8 @@ func init() {
 		RunSpec(c, spec, c.Scale(5000, 200000))
 	}
 	props["C08"] = func(c *Ctx) {
-		c.Res.Rule = "case = log query whose stages add, remove or rewrite labels (logfmt, label_format, drop, keep, label filters) x 0-12 records with equal timestamps and label values that differ only in characters Quote escapes x limit in {-1,0,1,2,N-1,N,N+1}; compared: partition into streams by final label set, per-stream time order, entry count, prefix under limit; non-trivial = at least 2 streams and a stream with at least 2 entries; distinct by request line"
-		kinds := []string{"logfmt", "lblfmt", "drop", "keep", "lblf", "lf"}
+		c.Res.Rule = "case = log query whose stages add, remove or rewrite labels (logfmt, label_format, drop, keep, label filters) x 0-12 records with equal timestamps and label values that differ only in characters Quote escapes (a sixth of the cases: `| json` then drop msg / keep over JSON bodies that differ only in number, boolean and string members, i.e. in typed label values) x limit in {-1,0,1,2,N-1,N,N+1}; compared: partition into streams by final label set, per-stream time order, entry count, prefix under limit; non-trivial = at least 2 streams and a stream with at least 2 entries; distinct by request line"
+		kinds := []string{"logfmt", "lblfmt", "drop", "keep", "lblf", "lf", "json"}
 		spec := logSpec("grouping and limit: LogQL.group/iterate == Engine.Eval", kinds, 3, 12,
 			func(t LogCase, impl Sexp) bool {
 				s, m, _ := resultStats(impl)
@@ -143,6 +184,24 @@ func init() {
 					t.Recs[i].Body, t.Recs[j].Body = "x", "x"
 				}
 			}
+			// typed labels: `| json` exposes numbers and booleans as typed values; records that differ
+			// only in those (the body label dropped) must still fall into different streams
+			if r.Intn(6) == 0 {
+				attrs := [][2]string{}
+				if r.Intn(2) == 0 {
+					attrs = [][2]string{{"a", "x"}}
+				}
+				t.Stages = []LStage{{Kind: "json"}, {Kind: pick(r, []string{"drop", "drop", "keep"})}}
+				if t.Stages[1].Kind == "drop" {
+					t.Stages[1].Labels = []string{"msg"}
+				} else {
+					t.Stages[1].Labels = distinctStrings(r, []string{"n", "ok", "f", "s", "a"}, 2+r.Intn(3))
+				}
+				for i := range t.Recs {
+					t.Recs[i].Attrs = attrs
+					t.Recs[i].Body = fmt.Sprintf(`{"n":%d,"ok":%v,"f":%s,"s":%q}`, r.Intn(3), r.Intn(2) == 0, pick(r, []string{"1.5", "2.5", "1e3"}), pick(r, []string{"u", "u", "v"}))
+				}
+			}
 			n := len(t.Recs)
 			t.Limit = pick(r, []int{-1, -1, 0, 1, 2, n - 1, n, n + 1, -5})
 			return t
@@ -153,7 +212,10 @@ func init() {
 			return append(tags, fmt.Sprintf("c08:streams=%d", min(s, 6)), fmt.Sprintf("c08:limit=%d", t.Limit))
 		}
 		// filters stay (the limit counts matching records); label-rewriting stages are C06/C07's business
-		spec.PropertyFails = logStageBlame(c, "lf", "lblf", "lfip")
+		blame := logStageBlame(c, "lf", "lblf", "lfip")
+		spec.PropertyFails = func(t LogCase, impl, model Sexp) bool {
+			return c08PartitionFails(t, impl) || blame(t, impl, model)
+		}
 		RunSpec(c, spec, c.Scale(5000, 200000))
 	}
 }
